@@ -18,7 +18,14 @@ import (
 	"golang.org/x/tools/go/ssa/ssautil"
 )
 
-const repoDir = "/repo"
+// repoDir is the tree under check.  Registered commands always use /repo; VERIF_REPO exists only so
+// that seeded changes can be tried in a scratch copy while another check runs on /repo.
+var repoDir = func() string {
+	if d := os.Getenv("VERIF_REPO"); d != "" {
+		return d
+	}
+	return "/repo"
+}()
 const verifDir = "/verif"
 const modPath = "github.com/openacid/slim"
 
